@@ -71,16 +71,37 @@ HoleLists == [gg \in GridNames |-> [gc \in {"none", "all", "some"} |-> TileOrder
 \* a chosen shape is a pair <<base, grid name>>
 Plain(gd)  == gd.names \in {<<>>, <<24>>} /\ gd.nModf \in {0, 1} /\ gd.nSec \in {0, 8}
 LPlain(gd) == gd.names \in {<<>>, <<24>>} /\ gd.nIdx \in {0, 1} /\ gd.nPlace \in {0, 1} /\ gd.nMldd \in {0, 1} /\ gd.nMlmd = 0
+\* ---- conversion histories -------------------------------------------------------------------------
+\* chains = sequences of target versions applied one after the other to the built object; the object at the
+\* end of every chain goes through write -> walk -> MAOF -> parse -> rewrite like a freshly built one.
+\* "full" cases get every A -> B -> A plus six rotating A -> B -> C; every other case gets two rotating chains.
+WdtFullChains(gb, gg) == gg = "pair" /\ Plain(gb) /\ gb.flags \subseteq {1, 512}
+WdlFullChains(gb, gg) == gg = "corners" /\ LPlain(gb) /\ gb.mode = "same" /\ gb.nMldd = 0
+VAt(gvs, gk) == gvs[(gk % Len(gvs)) + 1]
+Aba(gvs, gv) == {<<gvs[gk], gv>> : gk \in {gkk \in 1..Len(gvs) : gvs[gkk] # gv}}
+Abc(gvs, gi, gcount) == {<<VAt(gvs, gi + gj), VAt(gvs, gi * 3 + gj * 7 + 1)>> : gj \in 0..(gcount - 1)}
+WdtChains(gp, gi) == SetToSeq(IF WdtFullChains(gp[1], gp[2]) THEN Aba(WdtVersions, gp[1].ver) \cup Abc(WdtVersions, gi, 6)
+                              ELSE {<<VAt(WdtVersions, gi), gp[1].ver>>} \cup Abc(WdtVersions, gi + Seed, 1))
+WithApi(gapi, gchains) == {[api |-> gapi, vs |-> gc] : gc \in gchains}
+WdlChains(gp, gi) == SetToSeq(IF WdlFullChains(gp[1], gp[2])
+                              THEN WithApi("file", Aba(WdlVersions, gp[1].ver)) \cup WithApi("to", Aba(WdlVersions, gp[1].ver))
+                                   \cup WithApi("file", Abc(WdlVersions, gi, 3)) \cup WithApi("to", Abc(WdlVersions, gi + 5, 3))
+                                   \cup WithApi("to", {<<"Vanilla">>, <<"Legion">>, <<"Vanilla", "Vanilla">>})
+                              ELSE WithApi("file", {<<VAt(WdlVersions, gi), gp[1].ver>>}) \cup WithApi("to", Abc(WdlVersions, gi + Seed, 1))
+                                   \cup WithApi("to", {<<"Vanilla">>}))
+
 WdtSlices ==
     {<<gd, "t10">> : gd \in {gb \in WdtBases : Plain(gb) /\ gb.flags \subseteq {1, 512}}}                         \* every version x kind x MAID
     \cup {<<gd, LightSeq[gi]>> : gd \in {gb \in WdtBases : Plain(gb) /\ gb.ver \in {"WotLK", "BfA"} /\ gb.flags \subseteq {1, 512} /\ gb.names = <<>>},
                                  gi \in 1..NL}                                                                    \* every grid
     \cup {<<gd, "t01">> : gd \in {gb \in WdtBases : Plain(gb) /\ gb.ver \in {"WotLK", "MoP", "BfA"} /\ gb.names = <<>> /\ gb.nModf = 0}}  \* every flag
+    \cup {<<gd, "pair">> : gd \in {gb \in WdtBases : WdtFullChains(gb, "pair")}}                                    \* conversion histories
 WdlSlices ==
     {<<gd, "t10">> : gd \in {gb \in WdlBases : LPlain(gb)}}                                                       \* every version x optional group x holes x mode
     \cup {<<gd, LightSeq[gi]>> : gd \in {gb \in WdlBases : LPlain(gb) /\ gb.ver \in {"Vanilla", "Wotlk", "Legion"} /\ gb.holesCls \in {"none", "some"}
                                                             /\ gb.names = <<>> /\ gb.nMldd = 0 /\ gb.mode = "same"},
                                  gi \in 1..NL}
+    \cup {<<gd, "corners">> : gd \in {gb \in WdlBases : WdlFullChains(gb, "corners")}}                                \* conversion histories
 \* seed-rotated sample: the gj-th draw takes base (Seed*131 + salt + gj*stride) mod N and grid (gj + Seed*5) mod |grids|
 Draw(gseq, gn, gcount, gsalt, ggrids) ==
     LET gstride == IF gn % 997 = 0 THEN 991 ELSE 997 IN
@@ -95,20 +116,20 @@ WdlOk(gp) == gp[2] # "empty" \/ gp[1].holesCls = "none"
 WdlChosen == {gp \in (IF Thorough THEN WdlSlices \cup Every(WdlBaseSeq, NLB, 8, LightSeq) \cup Draw(WdlBaseSeq, NLB, 45, 6, HeavySeq)
                       ELSE WdlSlices \cup Draw(WdlBaseSeq, NLB, 160, 3, LightSeq) \cup Draw(WdlBaseSeq, NLB, 3, 4, HeavySeq)) : WdlOk(gp)}
 
-WdtCase(gp) == LET gd == gp[1] IN
+WdtCase(gp, gi) == LET gd == gp[1] IN
                [kind |-> "wdt", ver |-> gd.ver, flags |-> SetToSeq(gd.flags), hasMwmo |-> gd.hasMwmo, names |-> gd.names,
                 hasModf |-> gd.hasModf, nModf |-> gd.nModf, hasMaid |-> gd.hasMaid, nSec |-> gd.nSec,
-                grid |-> gp[2], tiles |-> GridLists[gp[2]], layout |-> WdtChunkSpecs(gd), conv |-> WdtVersions]
-WdlCase(gp) == LET gd == gp[1] IN
+                grid |-> gp[2], tiles |-> GridLists[gp[2]], layout |-> WdtChunkSpecs(gd), conv |-> WdtVersions, chains |-> WdtChains(gp, gi)]
+WdlCase(gp, gi) == LET gd == gp[1] IN
                [kind |-> "wdl", ver |-> gd.ver, grid |-> gp[2], tiles |-> GridLists[gp[2]],
                 holes |-> HoleLists[gp[2]][gd.holesCls], holesCls |-> gd.holesCls, names |-> gd.names,
                 nIdx |-> gd.nIdx, nPlace |-> gd.nPlace, nMldd |-> gd.nMldd, nMlmd |-> gd.nMlmd, mode |-> gd.mode,
-                conv |-> WdlVersions]
+                conv |-> WdlVersions, chains |-> WdlChains(gp, gi)]
 CoordCase == [kind |-> "coord"]
 
 WdtSeq == SetToSeq(WdtChosen)
 WdlSeq == SetToSeq(WdlChosen)
-Cases == <<CoordCase>> \o [gi \in 1..Len(WdtSeq) |-> WdtCase(WdtSeq[gi])] \o [gi \in 1..Len(WdlSeq) |-> WdlCase(WdlSeq[gi])]
+Cases == <<CoordCase>> \o [gi \in 1..Len(WdtSeq) |-> WdtCase(WdtSeq[gi], gi)] \o [gi \in 1..Len(WdlSeq) |-> WdlCase(WdlSeq[gi], gi)]
 GInit == vfmt = "gen" /\ vdef = 0 /\ vpc = "" /\ vcf = 0 /\ vrd = 0 /\ vrpos = 0 /\ vmaof = 0
 GNext == UNCHANGED mvars
 ASSUME ndJsonSerialize(IOEnv.CASES, Cases)
